@@ -326,12 +326,12 @@ func (w rawVec) RawVector() blas64.Vector { return w.v.RawVector() }
 // rawBand offers RawBand.
 type rawBand struct{ b *mat.BandDense }
 
-func (w rawBand) Dims() (int, int)     { return w.b.Dims() }
-func (w rawBand) At(i, j int) float64  { return w.b.At(i, j) }
-func (w rawBand) T() mat.Matrix        { return mat.Transpose{Matrix: w} }
+func (w rawBand) Dims() (int, int)      { return w.b.Dims() }
+func (w rawBand) At(i, j int) float64   { return w.b.At(i, j) }
+func (w rawBand) T() mat.Matrix         { return mat.Transpose{Matrix: w} }
 func (w rawBand) Bandwidth() (int, int) { return w.b.Bandwidth() }
-func (w rawBand) TBand() mat.Banded    { return mat.TransposeBand{Banded: w} }
-func (w rawBand) RawBand() blas64.Band { return w.b.RawBand() }
+func (w rawBand) TBand() mat.Banded     { return mat.TransposeBand{Banded: w} }
+func (w rawBand) RawBand() blas64.Band  { return w.b.RawBand() }
 
 // ---- structures -----------------------------------------------------------
 
@@ -618,6 +618,10 @@ func buildVec(how string) func(M matrix) *operand {
 		case "vecRow": // row 1 of a window of a poisoned 3×(n+2) matrix: inc 1 inside a larger array
 			back = poisoned(3 * (n + 2))
 			v = mat.NewDense(3, n+2, back).Slice(0, 3, 1, 1+n).(*mat.Dense).RowView(1).(*mat.VecDense)
+		case "vecRawLong": // SetRawVector with more data than (N-1)*Inc+1, as BLAS vectors allow
+			back = poisoned(n + 3)
+			v = &mat.VecDense{}
+			v.SetRawVector(blas64.Vector{N: n, Inc: 1, Data: back})
 		}
 		for i := 0; i < n; i++ {
 			v.SetVec(i, M[i][0])
@@ -762,10 +766,10 @@ func rewrapped(name string, base *kind) *kind {
 	return &k
 }
 
-func wT(m mat.Matrix) mat.Matrix        { return m.T() }
+func wT(m mat.Matrix) mat.Matrix         { return m.T() }
 func wTranspose(m mat.Matrix) mat.Matrix { return mat.Transpose{Matrix: m} }
-func wTTri(m mat.Matrix) mat.Matrix     { return m.(mat.Triangular).TTri() }
-func wTBand(m mat.Matrix) mat.Matrix    { return m.(mat.Banded).TBand() }
+func wTTri(m mat.Matrix) mat.Matrix      { return m.(mat.Triangular).TTri() }
+func wTBand(m mat.Matrix) mat.Matrix     { return m.(mat.Banded).TBand() }
 func wTransposeBand(m mat.Matrix) mat.Matrix {
 	return mat.TransposeBand{Banded: m.(mat.Banded)}
 }
@@ -847,7 +851,8 @@ func init() {
 	band12 := core(addKind(&kind{name: "Band(1,2)", shape: bandShape(specBand12), build: buildBand(specBand12, 0, false)}))
 	bandFull := addKind(&kind{name: "Band(full)", shape: bandShape(specBandFull), build: buildBand(specBandFull, 0, false)})
 	addKind(&kind{name: "BandStride(1,2)", shape: bandShape(specBand12), build: buildBand(specBand12, 2, false)})
-	addKind(&kind{name: "rawBand(1,2)", shape: bandShape(specBand12), build: buildBand(specBand12, 0, true)})
+	rawBand12 := addKind(&kind{name: "rawBand(1,2)", shape: bandShape(specBand12), build: buildBand(specBand12, 0, true)})
+	addKind(wrapped("T(rawBand(1,2))", rawBand12, wT))
 	core(addKind(wrapped("T(Band(1,2))", band12, wT)))
 	addKind(wrapped("TBand(Band(1,2))", band12, wTBand))
 	addKind(wrapped("TBand(Band(1,0))", band10, wTBand))
@@ -866,7 +871,8 @@ func init() {
 	triL := core(addKind(&kind{name: "TriL", shape: stSquare(stLower), build: buildTri(false, false)}))
 	triUV := addKind(&kind{name: "TriUView", shape: stSquare(stUpper), build: buildTri(true, true)})
 	addKind(&kind{name: "TriLView", shape: stSquare(stLower), build: buildTri(false, true)})
-	addKind(&kind{name: "rawTriU", shape: stSquare(stUpper), build: buildRawTri(true)})
+	rawTriU := addKind(&kind{name: "rawTriU", shape: stSquare(stUpper), build: buildRawTri(true)})
+	addKind(wrapped("T(rawTriU)", rawTriU, wT))
 	slow(addKind(&kind{name: "rawTriL", shape: stSquare(stLower), build: buildRawTri(false)}))
 	addKind(&kind{name: "basicTriL", shape: stSquare(stLower), build: buildBasicTri(false)})
 	core(addKind(wrapped("T(TriU)", triU, wT)))
@@ -922,6 +928,7 @@ func init() {
 	addKind(&kind{name: "VecRow", shape: stCol, build: buildVec("vecRow")})
 	bvec := addKind(&kind{name: "basicVec", shape: stCol, build: buildBasicVec})
 	addKind(&kind{name: "rawVec", shape: stCol, build: buildVec("rawVec")})
+	addKind(&kind{name: "VecRawLong", shape: stCol, build: buildVec("vecRawLong")})
 	core(addKind(wrapped("T(Vec)", vec, wT)))
 	addKind(wrapped("T(VecInc)", vecInc, wT))
 	addKind(wrapped("TVec(Vec)", vec, wTVec))
